@@ -6,4 +6,4 @@ From LasV Require Import Lib.Base Gen.GenDims Model.SubField Model.HeaderOps Mod
 Extraction Language OCaml.
 Extraction "../ocaml/c12/model.ml"
   Z.add Z.mul Z.sub Z.div_eucl Z.compare Z.of_nat Z.to_nat
-  convert convert_io dim_names lost std_ids storage_names.
+  convert convert_io dim_names lost std_ids storage_names resolutions.
